@@ -49,6 +49,7 @@ type Scenario struct {
 	Emb     latgeo.Emb   `json:"emb"`
 	Exp     map[string][]int `json:"exp"`
 	F       map[string]bool  `json:"f"`
+	Space   string           `json:"space"` // generation space: tri (3x3 lattice, 3 vertices), pent (5x5, 5), hex (7x7, 6), two (4x4, 4 vertices, two contours per operand)
 }
 
 // tag is the feature class of the scenario (exact predicates evaluated by the spec): "degenerate" if an operand has a
@@ -68,12 +69,13 @@ func (s *Scenario) tag() string {
 // embClass: "" for the identity and the seven other symmetries of the lattice (all coordinates stay small integers,
 // float arithmetic is exact on the inputs), "~float" for every other embedding (coincidences become near-coincidences).
 func (s *Scenario) embClass() string {
+	multi := "@" + s.Space
 	for _, e := range latgeo.Symmetries {
 		if e.Name == s.Emb.Name {
-			return ""
+			return multi
 		}
 	}
-	return "~float"
+	return multi + "~float"
 }
 
 var ops = []string{"and", "or", "xor", "not", "div"}
@@ -223,7 +225,7 @@ type stamp struct {
 }
 
 // runGen runs one TLC generation config and replays every scenario.
-func (r *runner) runGen(o tlc.Opts) {
+func (r *runner) runGen(space string, o tlc.Opts) {
 	c := r.c
 	var hdr Line
 	ch := make(chan []byte, 8192)
@@ -262,7 +264,7 @@ func (r *runner) runGen(o tlc.Opts) {
 				}
 			}
 			for _, e := range embsFor(int64(hash(l.P.SVG()+"|"+l.Q.SVG())), c.Thorough()) {
-				s := &Scenario{Kind: "bool", S: hdr.S, Samples: hdr.Samples, P: l.P, Q: l.Q, Emb: e, Exp: exp, F: l.F}
+				s := &Scenario{Kind: "bool", S: hdr.S, Samples: hdr.Samples, P: l.P, Q: l.Q, Emb: e, Exp: exp, F: l.F, Space: space}
 				r.cur[me].Store(&stamp{time.Now(), s})
 				ms := exec(s, false)
 				r.cur[me].Store(nil)
@@ -313,14 +315,14 @@ func (d Driver) Run(c *core.Ctx) error {
 
 	// 2. spec -> code
 	if c.Thorough() {
-		r.runGen(tlc.Opts{Module: "BoolOps", Config: cfg(2, 3, 1, "all", 0, "bool", false), Timeout: 30 * time.Minute}) // all 531 441 pairs of <=3-point contours on 3x3
-		r.runGen(tlc.Opts{Module: "BoolOps", Config: cfg(4, 5, 1, "random", 500, "bool", false), Seed: c.Seed, Timeout: 30 * time.Minute})
-		r.runGen(tlc.Opts{Module: "BoolOps", Config: cfg(3, 4, 2, "random", 120, "bool", false), Seed: c.Seed + 1, Timeout: 30 * time.Minute})
-		r.runGen(tlc.Opts{Module: "BoolOps", Config: cfg(6, 6, 1, "random", 250, "bool", false), Seed: c.Seed + 2, Timeout: 30 * time.Minute})
+		r.runGen("tri", tlc.Opts{Module: "BoolOps", Config: cfg(2, 3, 1, "all", 0, "bool", false), Timeout: 30 * time.Minute}) // all 531 441 pairs of <=3-point contours on 3x3
+		r.runGen("pent", tlc.Opts{Module: "BoolOps", Config: cfg(4, 5, 1, "random", 500, "bool", false), Seed: c.Seed, Timeout: 30 * time.Minute})
+		r.runGen("two", tlc.Opts{Module: "BoolOps", Config: cfg(3, 4, 2, "random", 120, "bool", false), Seed: c.Seed + 1, Timeout: 30 * time.Minute})
+		r.runGen("hex", tlc.Opts{Module: "BoolOps", Config: cfg(6, 6, 1, "random", 250, "bool", false), Seed: c.Seed + 2, Timeout: 30 * time.Minute})
 	} else {
-		r.runGen(tlc.Opts{Module: "BoolOps", Config: cfg(2, 3, 1, "random", 240, "bool", false), Seed: c.Seed})      // 57 600 pairs of <=3-point contours on 3x3
-		r.runGen(tlc.Opts{Module: "BoolOps", Config: cfg(4, 5, 1, "random", 130, "bool", false), Seed: c.Seed + 1}) // 16 900 pentagon pairs on 5x5
-		r.runGen(tlc.Opts{Module: "BoolOps", Config: cfg(3, 4, 2, "random", 40, "bool", false), Seed: c.Seed + 2})  // two contours per operand
+		r.runGen("tri", tlc.Opts{Module: "BoolOps", Config: cfg(2, 3, 1, "random", 240, "bool", false), Seed: c.Seed})       // 57 600 pairs of <=3-point contours on 3x3
+		r.runGen("pent", tlc.Opts{Module: "BoolOps", Config: cfg(4, 5, 1, "random", 130, "bool", false), Seed: c.Seed + 1}) // 16 900 pentagon pairs on 5x5
+		r.runGen("two", tlc.Opts{Module: "BoolOps", Config: cfg(3, 4, 2, "random", 40, "bool", false), Seed: c.Seed + 2})   // two contours per operand
 	}
 	c.Count(0, r.nontriv, 0)
 	c.SetExtra("pairs", r.n)
